@@ -109,11 +109,13 @@ theorem applyRes_evPub (cfg : Cfg) (pol : Policy) (step : Nat) (tickEv : Ev) (dc
   | failed exc failedAt =>
     simp only [applyRes, Res.returns, b2n]
     split
-    · simp [evPubCount, List.count_append, List.count_cons]
-    all_goals
-      split
-      · split <;> simp [evPubCount, List.count_append, List.count_cons]
+    · simp
+    · split
       · simp [evPubCount, List.count_append, List.count_cons]
+      all_goals
+        split
+        · split <;> simp [evPubCount, List.count_append, List.count_cons]
+        · simp [evPubCount, List.count_append, List.count_cons]
   | addCollected buf ev =>
     simp only [applyRes, Res.returns, b2n]
     split
